@@ -1539,6 +1539,19 @@ def hostile_texts(run):
         "const A = A; union u switch (int k) { case A: void; };", "const A = B; const B = A; enum e { M = A };",
         "struct s { int a<>; };", "typedef uint32_t bitmap4<>;", "typedef string name<>;", "struct 1abc { int 2x; };", "const 1 = 2;",
         "struct é { int a; };", "struct s { int a; }; \x00", "struct s\r\n{\r\nint a;\r\n};\r\n", "struct s { int a; };;",
+        # RFC 4506 forms outside fastxdr's grammar (must be Err), and forms one rule accepts in a position another does
+        "typedef int *p;", "typedef stringentry *stringlist;", "typedef opaque *o<>;", "typedef int *p[2];",
+        "struct s { void; };", "union u switch (int k) { case 1: void x; };", "struct s { enum { A = 1 } e; };",
+        "struct s { struct { int a; } inner; };", "typedef struct { int a; } t;", "typedef enum { A = 1 } e;",
+        "typedef union switch (int k) { case 1: void; } u;", "const A = -1;", "const A = 0x;", "enum e { A = 1, B };", "enum e { };",
+        "struct s { int a, b; };", "struct s { unsigned x; };", "struct s { unsigned x<>; unsigned *y; };", "struct s { quadruple q; bool b; };",
+        "union u switch (int *k) { case 1: void; };", "union u switch (int k[2]) { case 1: void; };", "union u switch (unsigned k) { case 1: void; };",
+        "program P { version V { void F(void) = 1; } = 1; } = 1;", "struct s { int *a<>; };", "struct s { int *a[2]; };",
+        "struct s { opaque *a<4>; string *b<>; };", "union u switch (int k) { case 1: int *a<>; };", "union u switch (int k) { default: int *a; };",
+        "typedef int a b;", "typedef a;", "typedef int;", "const A;", "enum e { A };", "union u switch (int) { case 1: void; };",
+        "/***/ const A = 1;", "/* x **/ const A = 1; /* y */ const B = 2;", "/** doc **/ struct s { int a; }; /* c */", "const A = 1; /* unterminated",
+        "const A = 1; // trailing", "/**/const A=1;/**/", "struct s { unsigned\tint a; unsigned\nhyper b; unsigned\r\nint c; };",
+        "typedef unsigned\tint t; union u switch (unsigned\tint k) { case 1: void; };",
     ]
     out = list(base)
     # token-level mutations of supported-subset and of the above
